@@ -116,3 +116,26 @@ register(
     ],
     probes=["n_equals_1", "draw_at_range_maximum", "draw_at_range_minimum", "two_resample_tasks_interleaved", "preempt_inside_task"],
 )
+
+register(
+    "C03",
+    quick=2500,
+    thorough=100000,
+    level="exploration",
+    rule=(
+        "one run = one estimator class/configuration from the registry (n_jobs forced to None) and two training "
+        "sets A, B drawn independently (different n, d, label sets and label types); history fit(A) [predict] fit(B) "
+        "on one instance vs a fresh estimator fitted on B under the same numpy global seed and the same (taped) "
+        "OS-entropy answers (O1, bit equality of outputs on a probe batch that also contains rows of A, and of "
+        "fitted attributes); a second fresh fit with the same global seed but other OS-entropy answers (O2); for "
+        "classes documenting it, another global seed with an integer random_state (O3); runs with string labels "
+        "are re-executed in an interpreter with another PYTHONHASHSEED and result digests compared; "
+        "non-trivial = every run (two fits on different data); distinct = distinct (class, config, label types, dims)"
+    ),
+    assumptions=[
+        "OS entropy is modelled by the unseeded numpy.random.RandomState() constructor as seen from mlinsights modules; os.urandom / time based seeding elsewhere is not intercepted (none exists in the anchored code)",
+        "the thread schedule is excluded here (n_jobs=None): schedule independence is C08's statement",
+        "estimator slots are filled with peers; scikit-learn's own estimators are trusted to be deterministic under a fixed global seed",
+    ],
+    probes=["unseeded_RandomState", "labels_str", "documented_determinism_checked"],
+)
